@@ -9,7 +9,7 @@ from . import uvrun, vloop
 from .replay import Recorder, ScenarioController, ensure_repo_on_path
 
 
-def run_scenario(scn: dict, *, fast: bool = False, init: int = 1, maxv: int = 0,
+def run_scenario(scn: dict, *, fast: bool = False, init: int = 1, maxv: int = 0, retry: bool = False,
                  eager: bool = False, uv: bool = False) -> dict:
     ensure_repo_on_path()
     import anyio
@@ -61,40 +61,49 @@ def run_scenario(scn: dict, *, fast: bool = False, init: int = 1, maxv: int = 0,
     async def client(t: int, script: list[str]) -> None:
         sem = state["sem"]
         held = 0
-        with state["scopes"][t]:
-            try:
-                for op in script:
-                    if op == "acq":
-                        rec.emit(ev="start", t=t)
-                        try:
-                            await sem.acquire()
-                        except asyncio.CancelledError:
-                            rec.emit(ev="end", t=t, res="cancelled", **obs())
-                            raise
-                        except Exception:  # noqa: BLE001
-                            rec.emit(ev="end", t=t, res="error", **obs())
-                        else:
-                            held += 1
-                            rec.emit(ev="end", t=t, res="ok", **obs())
-                    elif op == "nowait":
-                        try:
-                            sem.acquire_nowait()
-                        except anyio.WouldBlock:
-                            rec.emit(ev="nowait", t=t, res="wouldblock", **obs())
-                        else:
-                            held += 1
-                            rec.emit(ev="nowait", t=t, res="ok", **obs())
-                    elif op == "rel":
-                        if release(t) and held > 0:
-                            held -= 1
-                    elif op == "yield":
-                        await anyio.lowlevel.checkpoint()
-                    elif op == "end":
-                        break
-            finally:
-                while held > 0:
-                    release(t)
-                    held -= 1
+        ops = iter(script)              # shared by the retries: each operation is performed once
+        while True:
+            scope = state["scopes"][t]
+            with scope:
+                try:
+                    for op in ops:
+                        if op == "acq":
+                            rec.emit(ev="start", t=t)
+                            try:
+                                await sem.acquire()
+                            except asyncio.CancelledError:
+                                rec.emit(ev="end", t=t, res="cancelled", **obs())
+                                raise
+                            except Exception:  # noqa: BLE001
+                                rec.emit(ev="end", t=t, res="error", **obs())
+                            else:
+                                held += 1
+                                rec.emit(ev="end", t=t, res="ok", **obs())
+                        elif op == "nowait":
+                            try:
+                                sem.acquire_nowait()
+                            except anyio.WouldBlock:
+                                rec.emit(ev="nowait", t=t, res="wouldblock", **obs())
+                            else:
+                                held += 1
+                                rec.emit(ev="nowait", t=t, res="ok", **obs())
+                        elif op == "rel":
+                            if release(t) and held > 0:
+                                held -= 1
+                        elif op == "yield":
+                            await anyio.lowlevel.checkpoint()
+                        elif op == "end":
+                            break
+                finally:
+                    while held > 0:
+                        release(t)
+                        held -= 1
+            if retry and scope.cancelled_caught:
+                # the move_on_after pattern: the scope absorbed its cancellation, the task carries on
+                state["scopes"][t] = anyio.CancelScope()
+                rec.emit(ev="cdone", t=t)
+                continue
+            break
 
     async def main() -> None:
         loop = state["loop"] = uvrun.view(asyncio.get_running_loop())
